@@ -93,13 +93,24 @@ def exc_bucket(e, prefix="crash"):
     return f"{prefix}:{type(e).__name__}@{where}"
 
 
+class GenerationTimeout(BaseException):
+    pass
+
+
+GEN_TIMEOUT_S = 90  # no generated case needs that long to be *built*: a worker stuck between two cases gives up
+_phase = ["gen"]
+
+
 def _alarm(signum, frame):
-    raise CaseTimeout()
+    if _phase[0] == "case":
+        raise CaseTimeout()
+    raise GenerationTimeout()
 
 
 def run_case(mod, case):
     """evaluate one case under the watchdog; returns Outcome"""
     signal.signal(signal.SIGALRM, _alarm)
+    _phase[0] = "case"
     signal.setitimer(signal.ITIMER_REAL, CASE_TIMEOUT_S)
     try:
         out = mod.evaluate(case)
@@ -117,7 +128,9 @@ def run_case(mod, case):
         else:
             raise
     finally:
-        signal.setitimer(signal.ITIMER_REAL, 0)
+        # from here until the next case starts the generation watchdog is armed
+        _phase[0] = "gen"
+        signal.setitimer(signal.ITIMER_REAL, GEN_TIMEOUT_S)
     if not isinstance(out, Outcome):
         raise HarnessError("evaluate() must return an Outcome")
     return out
@@ -214,14 +227,21 @@ def collect(mod, tier, seed, shard, nshards, budget_s):
     enum = getattr(mod, "enumerate_cases", None)
     if enum is not None:
         done = True
-        for i, case in enumerate(enum(tier)):
-            if i % nshards != shard:
-                continue
-            if time.time() - t0 > budget_s:
-                col.budget_exhausted = True
-                done = False
-                break
-            col.record(case, run_case(mod, case), "enum")
+        try:
+            for i, case in enumerate(enum(tier)):
+                if i % nshards != shard:
+                    continue
+                if time.time() - t0 > budget_s:
+                    col.budget_exhausted = True
+                    done = False
+                    break
+                col.record(case, run_case(mod, case), "enum")
+        except GenerationTimeout:
+            col.budget_exhausted = True
+            done = False
+            col.inconclusive["generation_timeout"] = col.inconclusive.get("generation_timeout", 0) + 1
+        finally:
+            signal.setitimer(signal.ITIMER_REAL, 0)
         col.exhaustive_done = done
 
     strat_f = getattr(mod, "strategy", None)
@@ -238,10 +258,20 @@ def collect(mod, tier, seed, shard, nshards, budget_s):
         test = given(strat_f(tier))(body)
         test = hyp_settings(n)(test)
         test = hypothesis.seed(shard_seed(seed, mod.ID, shard))(test)
+        signal.signal(signal.SIGALRM, _alarm)
+        _phase[0] = "gen"
+        signal.setitimer(signal.ITIMER_REAL, GEN_TIMEOUT_S)
         try:
             test()
         except BudgetStop:
             pass
+        except GenerationTimeout:
+            # stuck while building a case (not while evaluating one): keep what was collected, say so
+            col.budget_exhausted = True
+            col.inconclusive["generation_timeout"] = col.inconclusive.get("generation_timeout", 0) + 1
+        finally:
+            signal.setitimer(signal.ITIMER_REAL, 0)
+    signal.setitimer(signal.ITIMER_REAL, 0)
     return col
 
 
